@@ -17,7 +17,7 @@ type c07Obj struct {
 	short bool
 }
 
-const c07ShortTimer = 25 * time.Millisecond
+const c07ShortTimer = 120 * time.Millisecond
 
 func c07Drain(r *serf.QueryResponse) string {
 	var as, rs []string
@@ -60,8 +60,18 @@ RESP:
 	return fmt.Sprintf("a=%s r=%s closed=%s%s", j(as), j(rs), ca, cr)
 }
 
+// c07Exec: a real timer that fired before the case reached its `sleep` op (a stalled machine) makes the
+// run meaningless; it is detected and the case is run again.
 func c07Exec(ops []string) []string {
-	var outs []string
+	for try := 0; ; try++ {
+		outs, premature := c07ExecOnce(ops)
+		if !premature || try == 4 {
+			return outs
+		}
+	}
+}
+
+func c07ExecOnce(ops []string) (outs []string, premature bool) {
 	n, err := newQNode(qnodeOpts{name: "self", gossip: time.Second, timeoutMult: 60})
 	if err != nil {
 		panic(err)
@@ -135,6 +145,11 @@ func c07Exec(ops []string) []string {
 			}
 			outs = append(outs, "ok")
 		case len(f) == 1 && f[0] == "sleep":
+			for _, o := range objs {
+				if o.short && serf.VerifQueryClosed(o.resp) {
+					premature = true
+				}
+			}
 			if !lastShort.IsZero() {
 				if d := time.Until(lastShort.Add(c07ShortTimer + 15*time.Millisecond)); d > 0 {
 					time.Sleep(d)
@@ -159,7 +174,7 @@ func c07Exec(ops []string) []string {
 			outs = append(outs, "bad-op")
 		}
 	}
-	return outs
+	return outs, premature
 }
 
 func c07Gen(rng *rand.Rand, tier string) []Case {
@@ -252,8 +267,13 @@ func c07Gen(rng *rand.Rand, tier string) []Case {
 					a = 1
 				}
 				ops = append(ops, fmt.Sprintf("reply %d %d %s %d %d", lt, qid, hexs(from), a, tag))
-			case x < 16:
+			case x < 15:
 				i := rng.Intn(len(objs))
+				if objs[i].short {
+					// only its own timer closes a real-timer object before `sleep`: the harness recognises
+					// that the timer has run by the object being closed
+					continue
+				}
 				if closed[i] {
 					late = true
 				}
@@ -300,7 +320,7 @@ func init() {
 	register(&Prop{
 		ID: "C07",
 		Rule: "each case = one real node; 1–5 concurrently open queries registered through the real newQueryResponse/registerQueryResponse (Lamport times from {5,6,7} so that times are shared and map entries overwritten; ids from 3 values; with/without acks; channel capacity 1–3; deadline far or already over) or through the real s.Query; " +
-			"6–30 steps: replies injected through NotifyMsg (matching, wrong id, wrong time, duplicates, acks to queries without acks, 5 sender names incl. empty), closes (body of the timer closure, also repeated), drains of AckCh/ResponseCh; real-timer cases let 25 ms timers fire and send replies afterwards; " +
+			"6–30 steps: replies injected through NotifyMsg (matching, wrong id, wrong time, duplicates, acks to queries without acks, 5 sender names incl. empty), closes (body of the timer closure, also repeated), drains of AckCh/ResponseCh; real-timer cases let 120 ms timers fire and send replies afterwards; " +
 			"non-trivial = the case has a duplicate, a mismatching id/time and a reply after a close/deadline; distinct = distinct op sequence. Interleavings of the timer with the individual steps of handleQueryResponse are not driven on the real code (theorems only)",
 		Gen:  c07Gen,
 		Exec: c07Exec,
